@@ -265,6 +265,8 @@ def main(argv):
 
     if prop in suiterun.EVALS and os.environ.get("CV_NO_SUITE") != "1":
         descs = [suiterun.shard_desc(prop, tier)] + list(descs)  # first: it is the longest shard
+        if os.environ.get("CV_ONLY_SUITE") == "1":  # development aid (tools/suite_vs_seeds.py): what does this workload catch alone?
+            descs = descs[:1]
     for i, d in enumerate(descs):
         d.setdefault("tier", tier)
         d.setdefault("seed", seed)
